@@ -70,3 +70,16 @@ Example C16_example :
   fst (prun 3 30 PClean ([Audit e 10000000000%Z] ++ tick_ops I 65000000000%Z)) = PHeld 10000000000%Z [e] /\
   fst (prun 3 30 PClean ([Audit e 10000000000%Z] ++ tick_ops I 75000000000%Z)) = PClean.
 Proof. vm_compute. split; reflexivity. Qed.
+
+(* ---------- the correlator of the model is the correlator of the source ----------
+   Gen/TrackerProg.v is REGENERATED on every run by translating sessiontracker.go (RemoteLogin,
+   AuditdEvent with both of its branches, the two cleanups, writeAndClearCache, the map operations
+   they perform, deferred deletes, early returns and error classes) into a small deep-embedded
+   language (Model/TrackerIR.v).  For EVERY state and EVERY operation the hand-written [tstep] of
+   Model/Tracker.v, on which the theorems of this file rest, IS the interpretation of the generated
+   programs, and that interpretation never gets stuck. *)
+From AM Require Model.TrackerIR Gen.TrackerProg Proofs.TrackerIRTie.
+Theorem C16_tracker_from_source : forall st o,
+  Proofs.TrackerIRTie.run_generated st o = Some (Model.Tracker.tstep st o).
+Proof. exact Proofs.TrackerIRTie.tracker_from_source. Qed.
+Print Assumptions C16_tracker_from_source.
